@@ -196,6 +196,7 @@ def replay_counterexample(prop, h, ovdir, target_dir, tier_cfg, scratch, res):
         json.dump(rep, open(path, "w"), indent=1)
         rep["path"] = path
         return rep
+    json.dump(rep, open(path, "w"), indent=1)
     rscratch = os.path.join(scratch, "replay")
     os.makedirs(rscratch, exist_ok=True)
     rovdir, hh, doubles = build_replay_overlay(rscratch, h.name, [t[3] for t in tests])
